@@ -109,6 +109,14 @@ class DomainChecker:
                     if not self.bounds_ok:
                         return False, f"GRAPHQL_MIN_INT/MAX_INT are {self.bounds}, not the 32-bit range"
                     return True, f"dominated by {f.text}"
+            from sa.guards import Constraints, Lin
+            cons = Constraints(facts)
+            lo = cons.prove_ge0(Lin({stext: 1, "GRAPHQL_MIN_INT": -1}))
+            hi = cons.prove_ge0(Lin({"GRAPHQL_MAX_INT": 1, stext: -1}))
+            if lo and hi:
+                if not self.bounds_ok:
+                    return False, f"GRAPHQL_MIN_INT/MAX_INT are {self.bounds}, not the 32-bit range"
+                return True, f"dominated by {lo} and {hi}"
             return False, f"`{unparse(e)}` is returned without a dominating GRAPHQL_MIN_INT <= {stext} <= GRAPHQL_MAX_INT test"
         if domain == "finite":
             for f in facts:
